@@ -61,9 +61,66 @@ Print Assumptions C09_asm_key_of_untagged.
 
 (* the fusion key of the pinned commit (no tag) is refuted: a Contaminant piece
    fused into an untagged scaffold of the same name (repaired by a fix: commit) *)
-Theorem C09_legacy_refuted : exists g p1 p2 b, let c := mkCfg true true false true in
+Theorem C09_legacy_refuted : exists g p1 p2 b, let c := mkCfg true true false true true in
   sc_tag (fst p2) = Some (s "Contaminant") /\ sc_rows (fst p2) <> [] /\
   aget fuse_key_eqb (fold_left (fuse_step c g) [p1; p2] []) (None, sc_hap (fst p2), sc_name (fst p2)) = Some b
   /\ sc_tag b = None /\ (exists pre, sc_rows b = pre ++ sc_rows (fst p2)).
 Proof. exact legacy_fusion_refuted. Qed.
 Print Assumptions C09_legacy_refuted.
+
+(* ---- from assembly key to output file (pretext_to_asm.name_assemblies) *)
+From Tola Require Model.Stats Proofs.StatsSpec.
+From Coq Require Import Permutation.
+
+(* closed form of the three branches: a map with a "Primary" assembly, a
+   single-haplotype map (key None present), a multi-haplotype map *)
+Theorem C09_name_assemblies_spec : forall asms root v,
+  Model.Stats.name_assemblies asms root v =
+  if Proofs.StatsSpec.has_key (Some (s "Primary")) asms then
+    if existsb Proofs.StatsSpec.none_uncurated asms then Err AttributeError
+    else Ok (Proofs.StatsSpec.primary_result root v asms)
+  else if Proofs.StatsSpec.has_key None asms then Ok (map (Proofs.StatsSpec.single_na root v) asms)
+  else Ok (map (Proofs.StatsSpec.multi_na root v) asms).
+Proof. exact Proofs.StatsSpec.name_assemblies_spec. Qed.
+Print Assumptions C09_name_assemblies_spec.
+
+(* no scaffold is lost or written twice by the renaming / merging *)
+Theorem C09_named_preserves_scaffolds : forall asms root v l,
+  Model.Stats.name_assemblies asms root v = Ok l ->
+  Permutation (flat_map Model.Stats.na_scaffolds l) (flat_map oa_scaffolds asms).
+Proof. exact Proofs.StatsSpec.name_assemblies_preserves_scaffolds_strong. Qed.
+Print Assumptions C09_named_preserves_scaffolds.
+
+(* it fails exactly when a "Primary" assembly coexists with an un-curated
+   assembly without key *)
+Theorem C09_name_assemblies_error_iff : forall asms root v e,
+  Model.Stats.name_assemblies asms root v = Err e
+  <-> e = AttributeError
+      /\ Proofs.StatsSpec.has_key (Some (s "Primary")) asms = true
+      /\ exists a, In a asms /\ oa_key a = None /\ oa_curated a = false.
+Proof. exact Proofs.StatsSpec.name_assemblies_error_iff. Qed.
+Print Assumptions C09_name_assemblies_error_iff.
+
+(* single-haplotype maps: two assemblies get the same file name exactly when
+   their keys agree after lower-casing ("Haplotig" counting as
+   "additional_haplotig") *)
+Theorem C09_single_names_nodup_iff : forall asms root v,
+  NoDup (map Model.Stats.na_name (map (Proofs.StatsSpec.single_na root v) asms))
+  <-> NoDup (map Proofs.StatsSpec.single_norm (map oa_key asms)).
+Proof. exact Proofs.StatsSpec.single_names_nodup_iff. Qed.
+Print Assumptions C09_single_names_nodup_iff.
+
+(* "Primary" maps: every other curated assembly ends up, in order, in the one
+   all_haplotigs assembly, which is written last *)
+Theorem C09_primary_all_haplotigs_last : forall asms root v l,
+  Proofs.StatsSpec.has_key (Some (s "Primary")) asms = true ->
+  Model.Stats.name_assemblies asms root v = Ok l ->
+  Proofs.StatsSpec.merged asms <> [] ->
+  exists l0,
+    l = l0 ++ [Model.Stats.mkNamed (Some (s "all_haplotigs")) (root ++ s "." ++ v ++ s ".all_haplotigs") true
+                       (flat_map oa_scaffolds
+                          (filter (fun a => negb (Model.Stats.is_primary_key (oa_key a)) && oa_curated a) asms))]
+    /\ map Model.Stats.na_key l0 = map oa_key (Proofs.StatsSpec.kept asms)
+    /\ map Model.Stats.na_scaffolds l0 = map oa_scaffolds (Proofs.StatsSpec.kept asms).
+Proof. exact Proofs.StatsSpec.primary_all_haplotigs_last. Qed.
+Print Assumptions C09_primary_all_haplotigs_last.
